@@ -11,6 +11,8 @@ READER_OFFSET = {}
 
 
 def check(ctx):
+    from ..lib import discarded_results
+    ctx.sub(discarded_results, 'C16.S2', ('qstrader/signals/',), 'windows hold what the code actually ordered and trimmed')
     ctx.sub(cadence, 'C16.S1')
     ctx.sub(s2_keys)
     ctx.sub(s3_slots)
@@ -51,7 +53,7 @@ def late_bound_loop_lambdas(ctx, root):
                             and node in parent.args) or isinstance(parent, (_ast.Yield, _ast.Return)) or \
                     (isinstance(parent, _ast.Assign) and any(isinstance(t_, (_ast.Subscript, _ast.Attribute)) for t_ in parent.targets))
                 if escaping and free & loopvars:
-                    out.append((g.site(node), sorted(free & loopvars)))
+                    out.append((g.site(node), sorted(free & loopvars), _ast.unparse(node.body)))
                 # defaults are evaluated at creation time: fine
             for ch in _ast.iter_child_nodes(node):
                 walk(ch, loopvars, node)
